@@ -199,7 +199,7 @@ func genFarAway(t *rapid.T, scale int) func(exact.P) exact.P {
 	if scale != 0 || rapid.IntRange(0, 7).Draw(t, "faraway") != 0 {
 		return nil
 	}
-	off := []int64{1 << 30, 1 << 40, 1 << 50, (1 << 52) - (1 << 21), -(1 << 30), -(1 << 45), -((1 << 52) - (1 << 21)), 0}
+	off := []int64{1 << 30, 1 << 40, 1 << 50, (1 << 52) - (1 << 21), 1 << 52, (1 << 53) - (1 << 22), -(1 << 30), -(1 << 45), -((1 << 52) - (1 << 21)), -(1 << 52), 0}
 	tx := rapid.SampledFrom(off).Draw(t, "fartx")
 	ty := rapid.SampledFrom(off).Draw(t, "farty")
 	return func(p exact.P) exact.P { return exact.P{X: p.X + tx, Y: p.Y + ty} }
@@ -430,6 +430,10 @@ type c19Dbl struct {
 	S [4]F `json:"s"` // ax, ay, bx, by
 	T [4]F `json:"t"`
 	P [2]F `json:"p"`
+	// Multiples: T starts (and, unless it is a T-junction, ends) on S by construction, so the two intersect
+	Multiples bool `json:"multiples,omitempty"`
+	// Axis: S is vertical or horizontal, T is perpendicular to it and starts on it (all decided by comparisons)
+	Axis bool `json:"axis,omitempty"`
 }
 
 var c19DblPool = []float64{0, math.Copysign(0, -1), 1, -1, 0.1, 0.2, 0.3, 0.7, 0.8, 1.1, 2.3, 2.4, 3, 3.3, 7.7, 8.7, 9.9, 1e-5, 123.456, -179.9999999,
@@ -477,11 +481,109 @@ func c19GenDbl(t *rapid.T) c19Dbl {
 		c.P = [2]F{F(math.Nextafter(float64(c.S[0]), math.Inf(1-2*rapid.IntRange(0, 1).Draw(t, "pdir2")))), c.S[1]}
 	case 2: // on the diagonal of the segment's direction, just past the far end
 		c.P = [2]F{F(math.Nextafter(float64(c.S[2]), math.Inf(1))), F(math.Nextafter(float64(c.S[3]), math.Inf(1)))}
+	case 3, 4: // a few ulps (or denormal steps) away from an end, independently in x and in y
+		e := rapid.IntRange(0, 1).Draw(t, "pend") * 2
+		step := func(v float64, label string) float64 {
+			dir := math.Inf(1 - 2*rapid.IntRange(0, 1).Draw(t, label+"d"))
+			for i := rapid.IntRange(0, 2).Draw(t, label+"n"); i > 0; i-- {
+				v = math.Nextafter(v, dir)
+			}
+			return v
+		}
+		c.P = [2]F{F(step(float64(c.S[e]), "px")), F(step(float64(c.S[e+1]), "py"))}
+	}
+	if rapid.IntRange(0, 5).Draw(t, "multiples") == 0 {
+		// exact integer multiples of one wide-mantissa vector V from a common origin: S = O..O+k3*V, T inside it or
+		// leaving it from a point on it - collinear by construction, with products no double can hold
+		vx := float64(rapid.Int64Range(-(1<<40), 1<<40).Draw(t, "vx"))
+		vy := float64(rapid.Int64Range(-(1<<40), 1<<40).Draw(t, "vy"))
+		ox, oy := float64(rapid.Int64Range(-1000, 1000).Draw(t, "ox")), float64(rapid.Int64Range(-1000, 1000).Draw(t, "oy"))
+		k1, k2 := float64(rapid.IntRange(0, 8).Draw(t, "k1")), float64(rapid.IntRange(0, 8).Draw(t, "k2"))
+		c.S = [4]F{F(ox), F(oy), F(ox + 8*vx), F(oy + 8*vy)}
+		c.T = [4]F{F(ox + k1*vx), F(oy + k1*vy), F(ox + k2*vx), F(oy + k2*vy)}
+		if rapid.Bool().Draw(t, "tjunction") {
+			c.T[2], c.T[3] = genDbl(t, "tjx"), genDbl(t, "tjy")
+		}
+		c.Multiples = true
+	} else if rapid.IntRange(0, 5).Draw(t, "axis") == 0 {
+		// a T-junction of an axis-parallel segment and a perpendicular stem of any length, denormal ones included
+		x0, y0, y1 := float64(genDbl(t, "ax0")), float64(genDbl(t, "ay0")), float64(genDbl(t, "ay1"))
+		ys := []float64{y0, y1}
+		if m := y0/2 + y1/2; m >= math.Min(y0, y1) && m <= math.Max(y0, y1) {
+			ys = append(ys, m)
+		}
+		ty := rapid.SampledFrom(ys).Draw(t, "aty")
+		tx := float64(genDbl(t, "atx"))
+		if rapid.Bool().Draw(t, "astep") {
+			tx = x0
+			dir := math.Inf(1 - 2*rapid.IntRange(0, 1).Draw(t, "astepd"))
+			for i := rapid.IntRange(1, 3).Draw(t, "astepn"); i > 0; i-- {
+				tx = math.Nextafter(tx, dir)
+			}
+		}
+		c.S = [4]F{F(x0), F(y0), F(x0), F(y1)}
+		c.T = [4]F{F(x0), F(ty), F(tx), F(ty)}
+		if rapid.Bool().Draw(t, "aswap") { // horizontal S, vertical stem
+			c.S = [4]F{c.S[1], c.S[0], c.S[3], c.S[2]}
+			c.T = [4]F{c.T[1], c.T[0], c.T[3], c.T[2]}
+		}
+		if rapid.Bool().Draw(t, "arev") {
+			c.T = [4]F{c.T[2], c.T[3], c.T[0], c.T[1]}
+		}
+		c.Axis = true
 	}
 	return c
 }
 
+// c19CheckDbl: the identities below; a failure of the collinear-multiples identity (it rests on cross products) is the listed finding KF-RANGE
+// when some non-zero coordinate difference of the case lies beyond 2^±480 (same input-side model as extremeRange).
 func c19CheckDbl(c c19Dbl) fw.Outcome {
+	o := c19CheckDblRaw(c)
+	if o.Fail != "" && o.Known == "" && kf.Enabled("C19", "KF-RANGE") && o.Label == "doubles/axis-junction" {
+		// the products of two non-zero differences in this configuration are (length of the stem) x (length of S) and
+		// (length of the stem) x (distance of the junction from the first end of S); the identity is owed unless one
+		// of them leaves the double range altogether (rounds to zero, or overflows)
+		l1 := func(ax, ay, bx, by F) float64 {
+			return math.Abs(float64(bx)-float64(ax)) + math.Abs(float64(by)-float64(ay))
+		}
+		ls, lt := l1(c.S[0], c.S[1], c.S[2], c.S[3]), l1(c.T[0], c.T[1], c.T[2], c.T[3])
+		factors := []float64{ls}
+		for _, e := range [][2]F{{c.T[0], c.T[1]}, {c.T[2], c.T[3]}} {
+			// the offset along S of either end of the stem from the first end of S (one of the two is the junction)
+			var off float64
+			if c.S[0] == c.S[2] {
+				off = math.Abs(float64(e[1]) - float64(c.S[1]))
+			} else {
+				off = math.Abs(float64(e[0]) - float64(c.S[0]))
+			}
+			factors = append(factors, off)
+		}
+		for _, f := range factors {
+			if pr := f * lt; (f != 0 && lt != 0 && pr == 0) || math.IsInf(pr, 0) || math.IsInf(f, 0) || math.IsInf(lt, 0) {
+				o.Known = "KF-RANGE"
+			}
+		}
+		return o
+	}
+	if o.Fail == "" || o.Known != "" || !kf.Enabled("C19", "KF-RANGE") || o.Label != "doubles/collinear-multiples" {
+		return o
+	}
+	vals := []float64{float64(c.S[0]), float64(c.S[2]), float64(c.T[0]), float64(c.T[2])}
+	vals2 := []float64{float64(c.S[1]), float64(c.S[3]), float64(c.T[1]), float64(c.T[3])}
+	for _, vs := range [][]float64{vals, vals2} {
+		for i := range vs {
+			for j := range vs {
+				if d := math.Abs(vs[i] - vs[j]); d != 0 && (d < math.Ldexp(1, -480) || d > math.Ldexp(1, 480)) {
+					o.Known = "KF-RANGE"
+					return o
+				}
+			}
+		}
+	}
+	return o
+}
+
+func c19CheckDblRaw(c c19Dbl) fw.Outcome {
 	pt := func(x, y F) geometry.Point { return geometry.Point{X: float64(x), Y: float64(y)} }
 	s := geometry.Segment{A: pt(c.S[0], c.S[1]), B: pt(c.S[2], c.S[3])}
 	u := geometry.Segment{A: pt(c.T[0], c.T[1]), B: pt(c.T[2], c.T[3])}
@@ -516,6 +618,32 @@ func c19CheckDbl(c c19Dbl) fw.Outcome {
 			return fw.Failf(label, "Segment%v and Segment%v share an end point but IntersectsSegment = %v / %v", s, u, s.IntersectsSegment(u), u.IntersectsSegment(s))
 		}
 	}
+	if c.Multiples {
+		label = "doubles/collinear-multiples"
+		if !s.IntersectsSegment(u) || !u.IntersectsSegment(s) {
+			return fw.Failf(label, "Segment%v starts on Segment%v (integer multiples of one vector from a common origin) but IntersectsSegment = %v / %v", u, s, s.IntersectsSegment(u), u.IntersectsSegment(s))
+		}
+		if !s.Raycast(u.A).On || !s.ContainsPoint(u.A) {
+			return fw.Failf(label, "%v is an integer multiple along Segment%v but Raycast.On / ContainsPoint is false", u.A, s)
+		}
+	}
+	if c.Axis {
+		vert, horiz := s.A.X == s.B.X, s.A.Y == s.B.Y
+		on := func(q geometry.Point) bool { return s.Rect().ContainsPoint(q) }
+		perp := (vert && u.A.Y == u.B.Y) || (horiz && u.A.X == u.B.X)
+		if !(vert || horiz) || !perp || !(on(u.A) || on(u.B)) {
+			return fw.Outcome{Label: "doubles/axis-junction-malformed", Skip: true}
+		}
+		label = "doubles/axis-junction"
+		if !s.IntersectsSegment(u) || !u.IntersectsSegment(s) {
+			return fw.Failf(label, "Segment%v is perpendicular to the axis-parallel Segment%v and has an end on it, but IntersectsSegment = %v / %v", u, s, s.IntersectsSegment(u), u.IntersectsSegment(s))
+		}
+		for _, e := range []geometry.Point{u.A, u.B} {
+			if on(e) && (!s.Raycast(e).On || !s.ContainsPoint(e)) {
+				return fw.Failf(label, "%v lies on the axis-parallel Segment%v but Raycast.On / ContainsPoint is false", e, s)
+			}
+		}
+	}
 	// boxes
 	sr, ur := s.Rect(), u.Rect()
 	if !sr.IntersectsRect(ur) && (s.IntersectsSegment(u) || u.IntersectsSegment(s)) {
@@ -540,5 +668,5 @@ func c19CheckDbl(c c19Dbl) fw.Outcome {
 	if r := s.Raycast(p); !r.In && !r.On && p.Y >= lo && p.Y < hi && p.X < math.Min(s.A.X, s.B.X) {
 		return fw.Failf(label, "Segment%v.Raycast(%v).In = false although the point is level with the half-open height range and left of the whole segment", s, p)
 	}
-	return fw.OK(label, shared || !sr.ContainsPoint(p))
+	return fw.OK(label, shared || c.Multiples || c.Axis || !sr.ContainsPoint(p))
 }
